@@ -340,6 +340,30 @@ func (p *prop) Exec(lines []string) []string {
 	for i, l := range lines {
 		l := l
 		outs[i] = vh.Guard("exec", func() string { return p.execLine(l) })
+		// what the line exercised, for the evidence: op, and the container encodings decoded
+		ws := strings.Fields(l)
+		if len(ws) > 0 {
+			op := ws[0]
+			if op == "imp" && len(ws) == 6 {
+				op = "imp-" + ws[4] + map[string]string{"0": "-set", "1": "-clear"}[ws[2]]
+			}
+			if op == "off" && len(ws) == 4 {
+				op = "off-mode" + ws[2]
+			}
+			vh.Count(op)
+			if j := strings.Index(outs[i], " c=["); j >= 0 {
+				seen := map[string]bool{}
+				for _, c := range strings.Fields(strings.SplitN(outs[i][j+4:], "]", 2)[0]) {
+					if f := strings.Split(c, ":"); len(f) == 3 && !seen[f[1]] {
+						seen[f[1]] = true
+						vh.Count("decoded-container-" + f[1])
+					}
+				}
+			}
+			if strings.HasPrefix(outs[i], "err:") {
+				vh.Count("rejected")
+			}
+		}
 	}
 	return outs
 }
